@@ -90,6 +90,10 @@ func (d *deferStreamLabelsVisitor) EnterDirective(ref int) {
 	labelString := d.operation.StringValueContentString(labelValue.Ref)
 
 	if previous, exists := d.seenLabels[labelString]; exists {
+		if previous.directiveRef == ref {
+			// the walker revisits a node after another visitor changed the tree
+			return
+		}
 		previousDirectiveName := d.operation.DirectiveNameBytes(previous.directiveRef)
 		d.StopWithExternalErr(operationreport.ErrDeferStreamDirectiveLabelMustBeUnique(
 			directiveName,
